@@ -8,6 +8,8 @@
 (*   [k |-> "d"]   <digits>      [k |-> "w"]   <word>      [k |-> "any"] <any>  *)
 (*   [k |-> "alt", o |-> <<bytes, ...>>]    <x or y ...>                      *)
 (*   [k |-> "os"]  /?  (optional trailing slash, no group)                 *)
+(*   [k |-> "up"]  [A-Z]+   [k |-> "olit", s |-> bytes]  optional literal   *)
+(*                 (both without group; used by method filters)            *)
 (*   [k |-> "rest"] <optional "/" + anything, one group>  the rest of the path: empty or "/..."      *)
 (* whose language is decidable by the split enumeration below.  Matching   *)
 (* is WHOLE-STRING: M(p,1,s,1) is the set of capture lists of all ways to  *)
@@ -42,6 +44,10 @@ M(p, i, s, j) ==
                    UNION { IF OccAt(s, e.o[q], j)
                            THEN { <<e.o[q]>> \o r : r \in M(p, i + 1, s, j + Len(e.o[q])) }
                            ELSE {} : q \in DOMAIN e.o }
+              [] e.k = "up" ->          \* [A-Z]+   (no group)
+                   UNION { M(p, i + 1, s, j + k) : k \in { k \in 1..(n - j + 1) : \A t \in j..(j + k - 1) : s[t] >= 65 /\ s[t] <= 90 } }
+              [] e.k = "olit" ->        \* an optional literal, e.g. T?   (no group)
+                   M(p, i + 1, s, j) \cup (IF OccAt(s, e.s, j) THEN M(p, i + 1, s, j + Len(e.s)) ELSE {})
               [] e.k = "os" ->
                    M(p, i + 1, s, j) \cup (IF j <= n /\ s[j] = 47 THEN M(p, i + 1, s, j + 1) ELSE {})
               [] e.k = "rest" ->
@@ -59,7 +65,11 @@ PrefixOnly(p, s) == ~Matches(p, s) /\ \E n \in 0..(Len(s) - 1) : Matches(p, SubS
 SubstrOnly(p, s) == ~Matches(p, s) /\ \E a \in 1..(Len(s) + 1) : \E b \in (a - 1)..Len(s) : Matches(p, SubSeq(s, a, b))
 
 \* method filter: [k |-> "none"] or [k |-> "set", s |-> {methods}] (exact, case-sensitive, whole string)
-MethodOK(f, m) == f.k = "none" \/ m \in f.s
+\*                [k |-> "re", alts |-> << pattern, ... >>]: the filter is the regular expression alt1|alt2|...;
+\*                the request method must be in its language (WHOLE string, case-sensitive)
+MethodOK(f, m) == \/ f.k = "none"
+                  \/ (f.k = "set" /\ m \in f.s)
+                  \/ (f.k = "re" /\ \E i \in 1..Len(f.alts) : Matches(f.alts[i], m))
 
 \* selection of groups: index 0 = the whole string
 Sel(s, g, sel) == [i \in 1..Len(sel) |-> IF sel[i] = 0 THEN s ELSE g[sel[i]]]
